@@ -404,7 +404,7 @@ def _planted(ur):
 # re-register the planner properties with an additional source-level (e2e) part
 for _name, _kinds, _rule in [
         ("C05", {"dup": "multi:", "dupset": "multi:"}, "two sources for one type"),
-        ("C06", {"missing": ("noprov:", "bindmissing:"), "missingtwin": ("noprov:", "bindmissing:"), "missingform": ("noprov:",)}, "a needed source removed"),
+        ("C06", {"missing": ("noprov:", "bindmissing:"), "missingtwin": ("noprov:", "bindmissing:"), "missingform": ("noprov:", "bindmissing:")}, "a needed source removed"),
         ("C08", {"unused": "unused", "twinunused": "unusedprov:", "unusedtwin": "unusedprov:", "emptyinline": "unusedset:"}, "a superfluous direct item")]:
     _unit_nt = {"C05": _nt_dups, "C06": _nt_missing, "C08": _nt_unused}[_name]
     register(_name,
@@ -414,7 +414,10 @@ for _name, _kinds, _rule in [
              [planner_part(_name, _unit_nt),
               e2e_part(_name, [("x", {"plant": list(_kinds), "units": [1, 2], "p_twin": 0.6}),
                                ("y", {"plant": list(_kinds), "units": [1, 2], "adversarial": True, "plant_p": 0.7, "p_samepkg": 0.8,
-                                      "max_structs": 9, "min_structs": 6})], _pairs_plan, set(), _planted,
+                                      "max_structs": 9, "min_structs": 6})]
+                      # the other form of a binding's concrete type, with the marker functions dot-imported or renamed
+                      + ([("w", {"plant": ["missingform", "missing"], "units": [1, 2], "p_twin": 0.0, "plant_p": 0.8,
+                                 "p_wire_import_forms": 0.8})] if _name == "C06" else []), _pairs_plan, set(), _planted,
                        n_quick=60, n_thorough=600, build=False, runit=False, extra=_planted_oracle(_kinds))])
 
 register("C07",
